@@ -292,6 +292,25 @@ class Machine:
                         break
                 if writes:
                     self.COMPOSERS.add(p)
+        # ... unless the composition is visible more precisely: a call that is handed the two names and the two events (the formatter
+        # of the header text). Then that call is the composition point, wherever it sits (in a helper or inline next to the guard)
+        NAMES4 = {'minus_file', 'plus_file', 'minus_file_event', 'plus_file_event'}
+        self.NAMES4 = NAMES4
+        argcomp = set()
+        for p in self.BODIES:
+            mir = self.BODIES[p]['mir']
+            if not (mir['arg_count'] >= 1 and 'StateMachine' in mir['locals'][1]):
+                continue
+            for i, c in F.calls(p):
+                got = set()
+                for a in c['args']:
+                    for r in F.trace(p, a):
+                        if r[0] == 'param' and r[1] == 1 and r[2]:
+                            got |= NAMES4 & set(r[2])
+                if got == NAMES4:
+                    argcomp.add(p)
+        self.ARGCOMP = argcomp
+        self.COMPOSERS = {p for p in self.COMPOSERS if p not in argcomp and not (set(F.reachable_from([p])) & argcomp)}
         # entry
         cons = [p for p, b in self.BODIES.items()
                 if b['kind'] == 'AssocFn' and b['mir']['arg_count'] == 2 and 'StateMachine' in b['mir']['locals'][1]
@@ -1287,39 +1306,93 @@ class Machine:
                 if callee.endswith('is_match'):
                     return self.predicate(('regex', sj, rx), g, memo, BOOL(True), BOOL(False))
                 return self.predicate(('regex', sj, rx), g, memo, ENUM(OPT, 1, [TOP({sj})]), ENUM(OPT, 0, []))
-        # ---- Option combinators with a closure: same meaning as the match they replace ----
-        mo = re.search(r'option::Option::<.{0,80}?>::(and_then|map|unwrap_or_else|or_else|unwrap_or|or)(::<|$)', callee)
-        if mo and a0[0] == 'enum' and a0[1].endswith('Option') and len(argv) >= 2:
-            kind = mo.group(1)
-            is_some = a0[2] == 1
-            payload = a0[3][0] if (is_some and a0[3]) else T0
+        # ---- Option / bool combinators with a closure: same meaning as the match / if they replace ----
+        mo = re.search(r'option::Option::<.{0,80}?>::(and_then|map|unwrap_or_else|or_else|unwrap_or|or|map_or|map_or_else|is_some_and|is_none_or|filter|inspect)(::<|$)', callee)
+        mb = re.search(r'bool::<impl bool>::(then|then_some)(::<|$)', callee) or re.search(r'(?:^|::)bool::(then|then_some)(::<|$)', callee)
 
-            def call_closure(fv, args):
-                f = self.deref_all(fv, g) if fv[0] in ('vref', 'ref') else fv
-                if f[0] == 'vref':
-                    f = f[1]
-                if f[0] == 'closure' and f[1] in self.BODIES:
-                    by_ref = self.BODIES[f[1]]['mir']['locals'][1].startswith('&')
-                    return self._descend(path, c, f[1], [VREF(f) if by_ref else f] + args, g, memo)
-                if f[0] == 'fn' and f[1] in self.BODIES:
-                    return self._descend(path, c, f[1], args, g, memo)
-                return None
-            if kind == 'unwrap_or':
-                return [((payload if is_some else argv[1]), g, memo)]
-            if kind == 'or':
-                return [((a0 if is_some else argv[1]), g, memo)]
-            if kind in ('and_then', 'map'):
-                if not is_some:
-                    return [(ENUM(OPT, 0, []), g, memo)]
-                outs = call_closure(argv[1], [payload])
-                if outs is not None:
-                    return outs if kind == 'and_then' else [(ENUM(OPT, 1, [rv]), g2, m2) for (rv, g2, m2) in outs]
-            if kind in ('unwrap_or_else', 'or_else'):
-                if is_some:
-                    return [((payload if kind == 'unwrap_or_else' else a0), g, memo)]
-                outs = call_closure(argv[1], [])
-                if outs is not None:
-                    return outs
+        def call_closure(fv, args):
+            f = self.deref_all(fv, g) if fv[0] in ('vref', 'ref') else fv
+            if f[0] == 'vref':
+                f = f[1]
+            if f[0] == 'closure' and f[1] in self.BODIES:
+                by_ref = self.BODIES[f[1]]['mir']['locals'][1].startswith('&')
+                return self._descend(path, c, f[1], [VREF(f) if by_ref else f] + args, g, memo)
+            if f[0] == 'fn' and f[1] in self.BODIES:
+                return self._descend(path, c, f[1], args, g, memo)
+            return None
+
+        def is_callable(fv):
+            f = self.deref_all(fv, g) if fv[0] in ('vref', 'ref') else fv
+            if f[0] == 'vref':
+                f = f[1]
+            return f[0] in ('closure', 'fn') and f[1] in self.BODIES
+        if mb and len(argv) >= 2:
+            kind = mb.group(1)
+            conds = [a0[1]] if a0[0] == 'bool' else [True, False]
+            if kind == 'then_some' or is_callable(argv[1]):
+                res_ = []
+                for cv in conds:
+                    if not cv:
+                        res_.append((ENUM(OPT, 0, []), g, memo))
+                    elif kind == 'then_some':
+                        res_.append((ENUM(OPT, 1, [argv[1]]), g, memo))
+                    else:
+                        outs = call_closure(argv[1], [])
+                        if outs is None:
+                            res_ = None
+                            break
+                        res_ += [(ENUM(OPT, 1, [rv]), g2, m2) for (rv, g2, m2) in outs]
+                if res_ is not None:
+                    return res_
+        if mo and len(argv) >= 2 and ((a0[0] == 'enum' and a0[1].endswith('Option')) or
+                                      (a0[0] == 'top' and any(is_callable(x) for x in argv[1:]))):
+            kind = mo.group(1)
+            # an Option whose variant is not known is read both ways (the closure's effects must not be lost)
+            cases = [(a0[2] == 1, (a0[3][0] if (a0[2] == 1 and a0[3]) else T0), a0)] if a0[0] == 'enum' else \
+                [(True, TOP(prov_of(a0)), ENUM(OPT, 1, [TOP(prov_of(a0))])), (False, T0, ENUM(OPT, 0, []))]
+            res_ = []
+            for (is_some, payload, a0v) in cases:
+                outs = None
+                if kind == 'unwrap_or':
+                    outs = [((payload if is_some else argv[1]), g, memo)]
+                elif kind == 'or':
+                    outs = [((a0v if is_some else argv[1]), g, memo)]
+                elif kind in ('and_then', 'map'):
+                    if not is_some:
+                        outs = [(ENUM(OPT, 0, []), g, memo)]
+                    else:
+                        o2 = call_closure(argv[1], [payload])
+                        if o2 is not None:
+                            outs = o2 if kind == 'and_then' else [(ENUM(OPT, 1, [rv]), g2, m2) for (rv, g2, m2) in o2]
+                elif kind in ('unwrap_or_else', 'or_else'):
+                    if is_some:
+                        outs = [((payload if kind == 'unwrap_or_else' else a0v), g, memo)]
+                    else:
+                        outs = call_closure(argv[1], [])
+                elif kind == 'map_or' and len(argv) >= 3:
+                    outs = call_closure(argv[2], [payload]) if is_some else [(argv[1], g, memo)]
+                elif kind == 'map_or_else' and len(argv) >= 3:
+                    outs = call_closure(argv[2], [payload]) if is_some else call_closure(argv[1], [])
+                elif kind in ('is_some_and', 'is_none_or'):
+                    outs = call_closure(argv[1], [payload]) if is_some else [(BOOL(kind == 'is_none_or'), g, memo)]
+                elif kind in ('filter', 'inspect'):
+                    if not is_some:
+                        outs = [(ENUM(OPT, 0, []), g, memo)]
+                    else:
+                        o2 = call_closure(argv[1], [VREF(payload)])
+                        if o2 is not None:
+                            outs = []
+                            for (rv, g2, m2) in o2:
+                                if kind == 'inspect' or rv != BOOL(False):
+                                    outs.append((a0v, g2, m2))
+                                if kind == 'filter' and rv != BOOL(True):
+                                    outs.append((ENUM(OPT, 0, []), g2, m2))
+                if outs is None:
+                    res_ = None
+                    break
+                res_ += outs
+            if res_ is not None:
+                return res_
         # ---- indirect calls through boxed functions: resolve by the value carried ----
         if callee.endswith('FnMut>::call_mut') or callee.endswith('Fn>::call') or callee.endswith('FnOnce>::call_once') or callee.startswith('<indirect') \
                 or re.search(r'ops::Fn(Mut|Once)?<', callee):
@@ -1356,7 +1429,8 @@ class Machine:
             for (rv, g3, memo3) in outs:
                 res.append((rv, g3._replace(HH=0, HW=0, OM=0), memo3))
             return res
-        if callee in self.COMPOSERS and self.composer_depth == 0 and not self.color_only and not self.passthrough and not self.quiet:
+        arg_composition = len({a[1][-1] for a in av if a[0] == 'ref' and a[1] and a[1][0] == 'SM'} & self.NAMES4) == 4
+        if (callee in self.COMPOSERS or arg_composition) and self.composer_depth == 0 and not self.color_only and not self.passthrough and not self.quiet:
             # the composed file header of a section
             self.events['HDR_COMPOSED'] += 1
             if g.REL not in ('DN', 'D'):
@@ -1370,6 +1444,16 @@ class Machine:
                 self.violate('HDR-TWICE', path, 'a second file header is written for one file section (the header is composed again although one has already been '
                              'written since the section started)', g, self.F.span_of_call(c), callee, facet='composed')
             g = g._replace(FH=1 if g.SRC == self.SRCV.get('GitDiff') else 0)
+            self.composer_depth += 1
+            try:
+                outs = self._descend2(path, c, callee, av, g, memo)
+            finally:
+                self.composer_depth -= 1
+            if arg_composition:
+                # the composed text: whatever is handed this value is writing the composed header
+                outs = [(TOP(prov_of(rv) | {'composed'}), g3, m3) for (rv, g3, m3) in outs]
+            return outs
+        if self.composer_depth == 0 and any('composed' in prov_of(a) for a in av):
             self.composer_depth += 1
             try:
                 return self._descend2(path, c, callee, av, g, memo)
